@@ -359,6 +359,19 @@ pub fn scenarios(thorough: bool) -> Vec<BookScenario> {
 		}
 		add(format!("unsub-unknown-and-malformed:mask{mi}"), vec![vec![Subscribe(0), UnsubRaw(json!([999])), UnsubRaw(json!(["x"])), UnsubRaw(json!(["1"])), UnsubRaw(json!([1.0])), UnsubRaw(json!([[1]])), UnsubRaw(json!({})), UnsubRaw(json!([])), Unsub(0)]], scripts.clone(), 2, mask);
 	}
+	// the low-level assembly (ws::connect called from an application-made service): same bookkeeping, same cap
+	for cap in 0..=2u32 {
+		let mut peer = Vec::new();
+		for _ in 0..=cap {
+			peer.push(Subscribe(0));
+		}
+		peer.push(if cap > 0 { Unsub(0) } else { UnsubRaw(json!([999])) });
+		peer.push(Subscribe(0));
+		peer.push(Subscribe(0));
+		add(format!("low-level:cap{cap}:h0"), vec![peer], scripts.clone(), cap, mask_harness_only);
+	}
+	add("low-level:unsub-own:h1".into(), vec![vec![Subscribe(1), Unsub(0), Unsub(0)]], scripts.clone(), 2, mask_harness_only);
+	add("low-level:drop-race:h0".into(), vec![vec![Subscribe(0), Subscribe(0), Unsub(0), CloseFrame]], scripts.clone(), 2, mask_harness_only);
 	// string subscription ids
 	for h in [0usize, 1, 5] {
 		add(format!("string-ids:unsub-own:h{h}"), vec![vec![Subscribe(h), Unsub(0), Unsub(0)]], scripts.clone(), 2, mask_harness_only);
